@@ -282,7 +282,7 @@ def race_scripts(rnd, rounds):
     event is enabled: every fourth round a delivery must reach it once (and the pre-existing handler once); at the end the
     original disposition must be back.  Keeper events on another signal keep both pipes open."""
     out = []
-    for i, (e1, e2) in enumerate([(a, b) for a in ENGINES for b in ENGINES] + [("epoll", "epoll"), ("epoll", "epoll")]):
+    for i, (e1, e2) in enumerate([(a, b) for a in ENGINES for b in ENGINES] + [("epoll", "epoll")] * 4):
         s0 = i % 3 + 1
         sk = s0 % 3 + 1
         ev = [{"L": 1, "sigs": [s0], "os": False, "prog": []}, {"L": 2, "sigs": [s0], "os": False, "prog": []},
@@ -515,7 +515,7 @@ def run(ctx):
     nwide = nexec // 4                                            # a quarter of them with 5-8 loops sharing a signal
     rscripts = wide_scripts(rnd) + [random_script(rnd, nops, wide=i < nwide) for i in range(nexec)]
     rscripts += cb_scripts(rnd) + [random_cb_script(rnd, nops) for _ in range(nexec // 2)]   # callbacks that (un)subscribe, batches, held loops
-    rscripts += race_scripts(rnd, 160 if ctx.quick() else 1200)   # concurrent last-unsubscribe / first-subscribe of two loops
+    rscripts += race_scripts(rnd, 120 if ctx.quick() else 600)   # concurrent last-unsubscribe / first-subscribe of two loops
     rscripts += burst_scripts(rnd)                                # a held loop's pipe overflows, the other loops keep getting everything
     rnd.shuffle(rscripts)                                         # spread the expensive ones over the shards
     ok, tr = run_scripts(ctx, exe, rscripts, "random", "%d random histories of %d steps" % (len(rscripts), nops), False)
@@ -531,8 +531,10 @@ def run(ctx):
         "tbox receives the signal); when nobody is subscribed handler, flags and mask must equal the saved sigaction",
         "signals used: SIGUSR1, SIGUSR2, SIGRTMIN+1; a signal is not sent while the current disposition is SIG_DFL or has SA_RESETHAND "
         "(logged as noraise; accepted only when the model says nobody is subscribed and that is the pre-existing disposition)",
-        "concurrent subscription calls of two loops (race steps): the expected state is order-independent; hitting a faulty window "
-        "between two critical sections is schedule-dependent (swept start offsets, a few hundred rounds per run)",
+        "concurrent subscription calls of two loops (race steps): the expected state is order-independent; the driver interposes "
+        "sigaction() and holds the unsubscribing side inside its restore call (<= 2 ms) until the other loop's call has finished",
+        "burst: the driver shrinks the loops' signal pipes to one page (fcntl F_SETPIPE_SZ on the descriptors seen at the hook point), "
+        "so that 1200 deliveries overflow the pipe of a held loop; what an overflowed pipe still delivers after release is left open",
         "callbacks that change subscriptions: an event of the set being served that an earlier callback of the same dispatch "
         "unsubscribed may or may not be called (the statement does not say); an event enabled by a callback is served from the next "
         "number on; an event is never destroyed while it may be in the set being served (the code has a FIXME there)",
